@@ -121,6 +121,75 @@ SERVLET_CTORS = [
            canaries_=(('fail_fast flag ignored', 'self._fail_fast = fail_fast', 'self._fail_fast = True', ''),)),
 ]
 
+
+class ProcessServletInit(Unit):
+    """ProcessServlet.__init__: one worker process per entry of the stored CPU list -- cpus=None: one unpinned worker; cpus=n: n unpinned workers; a list: that list,
+    unchanged (entry i pins worker i: unit ProcessServlet.start) -- and the worker class / its keyword arguments / the name prefix are stored as given."""
+    prop = 'C11'
+    file = F_SERVLET
+    qual = 'ProcessServlet.__init__'
+    variant = 'cpus=None'
+    kind = 'none'
+    canaries = (('worker keyword arguments dropped', 'self._init_kwargs = kwargs', 'self._init_kwargs = {}', ''),)
+
+    def setup(self, ex):
+        st = St()
+        self.me = Rec(ex, 'self')
+        self.P = {p: z3.Const('p_' + p, Val) for p in ('worker_cls', 'worker_name')}
+        self.pack = KwPack(z3.Const('p_kwargs', Val))
+        self.n = z3.Int('n_processes')
+        self.lst = z3.Const('cpu_list', V.SeqV)
+        st.assume(self.n >= 1)
+        cpus = {'none': NONE, 'int': self.n, 'list': self.lst}[self.kind]
+        st.env.update(self=self.me, cpus=cpus, kwargs=self.pack, **self.P)
+        self.nones = z3.Const('n_nones', V.SeqV)
+        return st
+
+    def on_comprehension(self, ex, st, e):
+        if ast.unparse(e) == '[None for _ in range(cpus)]' and self.kind == 'int':
+            j = z3.Int('any_index')
+            s = st.fork().assume(z3.Length(self.nones) == self.n, z3.Implies(z3.And(j >= 0, j < self.n), self.nones[j] == NONE))
+            return [('ok', s, self.nones)]
+        return None
+
+    def post(self, ex, outs):
+        for k, s, p in outs:
+            if k not in ('normal', 'return'):
+                ex.oblige(s, 'exit: does not raise', False)
+                continue
+            g = lambda f: self.me.get(s, f) if self.me.has(s, f) else None        # noqa: E731
+            cp = g('_cpus')
+            j = z3.Int('any_index')
+            if cp is None or not (z3.is_expr(cp) and cp.sort() == V.SeqV):
+                want = z3.BoolVal(False)
+            elif self.kind == 'none':
+                want = z3.And(z3.Length(cp) == 1, cp[0] == NONE)
+            elif self.kind == 'int':
+                want = z3.And(z3.Length(cp) == self.n, z3.Implies(z3.And(j >= 0, j < self.n), cp[j] == NONE))
+            else:
+                want = cp == self.lst
+            ex.oblige(s, 'exit: [C11] the CPU list has one entry per worker process: [None] by default, n times None for cpus=n, the caller\'s list otherwise', want)
+            ws = g('_workers')
+            ex.oblige(s, 'exit: worker class, keyword arguments and name prefix stored as given; no worker yet; not started',
+                      z3.And(box(ex, g('_worker_cls')) == self.P['worker_cls'], z3.BoolVal(g('_init_kwargs') is self.pack), box(ex, g('_worker_name')) == self.P['worker_name'],
+                             z3.BoolVal(z3.is_expr(ws) and ws.sort() == V.SeqV and z3.is_true(z3.simplify(z3.Length(ws) == 0))), box(ex, g('_started')) == V.boolv(z3.BoolVal(False)))
+                      if all(g(f) is not None for f in ('_worker_cls', '_init_kwargs', '_worker_name', '_workers', '_started')) else z3.BoolVal(False))
+
+
+class ProcessServletInitInt(ProcessServletInit):
+    variant = 'cpus=n'
+    kind = 'int'
+    canaries = (('one process too few for cpus=n', 'cpus = [None for _ in range(cpus)]', 'cpus = [None for _ in range(cpus)][1:]', ''),)
+
+
+class ProcessServletInitList(ProcessServletInit):
+    variant = 'cpus=list'
+    kind = 'list'
+    canaries = (('CPU list replaced by the default', '            self._cpus = cpus', '            self._cpus = [None]', ''),)
+
+
+SERVLET_CTORS += [ProcessServletInit, ProcessServletInitInt, ProcessServletInitList]
+
 STREAM_CTORS = [
     stores('C01', F_STREAM, 'ParmapperAsync.__init__', ['instream', 'func', 'concurrency', 'return_x', 'return_exceptions', 'preprocessor', 'parmapper_name', 'async_context'],
            {'_instream': 'instream', '_func': 'func', '_func_kwargs': ('pack',), '_return_x': 'return_x', '_return_exceptions': 'return_exceptions', '_preprocessor': 'preprocessor',
